@@ -485,6 +485,12 @@ def Prims.quiet : Prims Unit where
   markupOf _ := []
   origOf _ := none
 
+/-- nothing raises, nothing is delivered: the smallest behaviour, within every list of recorded kinds -/
+def Prims.silent : Prims Unit :=
+  { Prims.quiet with tokFeed := fun _ => ([], none), tokClose := fun _ => ([], none), intDec := fun _ => .ok 0,
+                     intHex := fun _ => .ok 0, dec1252 := fun _ => .ok [63], chrOf := fun _ => .ok [63],
+                     cands := [.ok 1], decode := fun _ _ => .ok [120] }
+
 /-- every call of the primitive `pt` raises `c` (the tokenizer phases: after delivering their events) -/
 def Prims.inject (P : Prims Unit) (pt : Point) (c : Err) : Prims Unit :=
   match pt with
